@@ -78,6 +78,9 @@ const (
 	OpSeqContains // (seq.contains s sub)
 	OpSeqPrefixOf // (seq.prefixof pre s)
 	OpSeqSuffixOf // (seq.suffixof suf s)
+	OpSeqLen64    // ((_ int2bv 64) (seq.len s))
+	OpSeqIndex64  // ((_ int2bv 64) (seq.indexof s sub 0)): -1 wraps to all ones
+	OpSeqNth      // (seq.nth s i): the byte at a 64-bit index (in range by construction)
 	OpApp         // uninterpreted function Name
 )
 
@@ -739,6 +742,30 @@ func (c *Ctx) SeqSuffixOf(suf, s *Term) *Term {
 	return c.mk(&Term{Op: OpSeqSuffixOf, Sort: BoolSort, Args: []*Term{suf, s}})
 }
 
+// SeqLen64 is the length of s as a 64-bit value.
+func (c *Ctx) SeqLen64(s *Term) *Term {
+	if s.Op == OpSeqConst {
+		return c.BVConst(uint64(len(s.Name)), 64)
+	}
+	return c.mk(&Term{Op: OpSeqLen64, Sort: BV(64), Args: []*Term{s}})
+}
+
+// SeqNth is s[idx] for a 64-bit index term.
+func (c *Ctx) SeqNth(s, idx *Term) *Term {
+	if s.Op == OpSeqConst && idx.Op == OpBVConst && idx.Val < uint64(len(s.Name)) {
+		return c.BVConst(uint64(s.Name[idx.Val]), 8)
+	}
+	return c.mk(&Term{Op: OpSeqNth, Sort: BV(8), Args: []*Term{s, idx}})
+}
+
+// SeqIndex64 is strings.Index(s, sub) as a 64-bit value.
+func (c *Ctx) SeqIndex64(s, sub *Term) *Term {
+	if s.Op == OpSeqConst && sub.Op == OpSeqConst {
+		return c.BVConst(uint64(int64(strings.Index(s.Name, sub.Name))), 64)
+	}
+	return c.mk(&Term{Op: OpSeqIndex64, Sort: BV(64), Args: []*Term{s, sub}})
+}
+
 // ---------------------------------------------------------------------
 // printing
 
@@ -829,6 +856,24 @@ func Print(t *Term) string {
 				return quoteSym(x.Name)
 			}
 			b.WriteString("(" + quoteSym(x.Name))
+		case OpSeqLen64:
+			return "((_ int2bv 64) (seq.len " + pr(x.Args[0]) + "))"
+		case OpSeqIndex64:
+			return "((_ int2bv 64) (seq.indexof " + pr(x.Args[0]) + " " + pr(x.Args[1]) + " 0))"
+		case OpSeqNth:
+			// the index in the integer theory: a constant, len(s)-k, or bv2int
+			s0, idx := x.Args[0], x.Args[1]
+			switch {
+			case idx.Op == OpBVConst:
+				return fmt.Sprintf("(seq.nth %s %d)", pr(s0), idx.Val)
+			case idx.Op == OpBVSub && idx.Args[0].Op == OpSeqLen64 && idx.Args[0].Args[0] == s0 && idx.Args[1].Op == OpBVConst:
+				return fmt.Sprintf("(seq.nth %s (- (seq.len %s) %d))", pr(s0), pr(s0), idx.Args[1].Val)
+			case idx.Op == OpBVAdd && idx.Args[0].Op == OpSeqLen64 && idx.Args[0].Args[0] == s0 && idx.Args[1].Op == OpBVConst && int64(idx.Args[1].Val) < 0:
+				return fmt.Sprintf("(seq.nth %s (- (seq.len %s) %d))", pr(s0), pr(s0), -int64(idx.Args[1].Val))
+			case idx.Op == OpBVAdd && idx.Args[1].Op == OpSeqLen64 && idx.Args[1].Args[0] == s0 && idx.Args[0].Op == OpBVConst && int64(idx.Args[0].Val) < 0:
+				return fmt.Sprintf("(seq.nth %s (- (seq.len %s) %d))", pr(s0), pr(s0), -int64(idx.Args[0].Val))
+			}
+			return "(seq.nth " + pr(s0) + " (bv2int " + pr(idx) + "))"
 		default:
 			b.WriteString("(" + opNames[x.Op])
 		}
